@@ -39,13 +39,16 @@ impl Scenario for C14 {
     }
     fn runs(&self, tier: Tier) -> u64 {
         if tier == Tier::Thorough {
-            20_000
+            30_000
         } else {
-            800
+            1200
         }
     }
     fn gen(&self, seed: u64, run: u64, _tier: Tier) -> Value {
         let mut rng = Rng::new(crate::framework::run_seed(seed, "C14", run));
+        if run % 3 == 2 {
+            return gen_client(&mut rng);
+        }
         let policy = *rng.pick(&["Basic256Sha256", "Basic128Rsa15", "Aes128-Sha256-RsaOaep", "Basic256", "Aes256-Sha256-RsaPss"]);
         let mode = *rng.pick(&["Sign", "SignAndEncrypt"]);
         let mut steps = Vec::new();
@@ -80,7 +83,12 @@ impl Scenario for C14 {
     }
     fn exec(&self, plan: &Value, ctx: &mut Ctx) {
         let rt = l2::runtime(plan["tseed"].as_u64().unwrap_or(1));
-        rt.block_on(run(plan, ctx));
+        if plan["side"] == "client" {
+            rt.block_on(run_client(plan, ctx));
+            crate::rawsrv::remove_connector();
+        } else {
+            rt.block_on(run(plan, ctx));
+        }
     }
     fn panic_property(&self) -> &'static str {
         "C09"
@@ -243,4 +251,265 @@ async fn run(plan: &Value, ctx: &mut Ctx) {
         }
     }
     ctx.advance(5000 * steps.len() as u64);
+}
+
+// ------------------------------------------------------------------------------------------------
+// Client half: the real AsyncSecureChannel renews its token (75 % of the lifetime) while the
+// scripted server still owes it responses; the server answers those under the *new* token, in the
+// same burst as the OpenSecureChannel response or shortly after.
+
+pub fn client_pki(bits: u32) -> std::path::PathBuf {
+    let d = l2::scratch_dir().join(format!("client-pki-{}", bits));
+    if !d.join("own/cert.der").exists() {
+        let a = wire::identity(bits, "a");
+        let b = wire::identity(bits, "b");
+        for sub in ["own", "private", "trusted", "rejected"] {
+            let _ = std::fs::create_dir_all(d.join(sub));
+        }
+        std::fs::write(d.join("own/cert.der"), a.cert.to_der().expect("der")).expect("write cert");
+        std::fs::write(d.join("private/private.pem"), &a.pem).expect("write key");
+        let name = opcua::crypto::CertificateStore::cert_file_name(&b.cert);
+        std::fs::write(d.join("trusted").join(name), b.cert.to_der().expect("der")).expect("write trusted");
+    }
+    d
+}
+
+pub fn gen_client(rng: &mut Rng) -> Value {
+    let policy = *rng.pick(&["Basic256Sha256", "Basic128Rsa15", "Aes128-Sha256-RsaOaep", "Basic256", "Aes256-Sha256-RsaPss"]);
+    let mode = *rng.pick(&["Sign", "SignAndEncrypt"]);
+    let lifetime = *rng.pick(&[1000u64, 2000, 4000]);
+    let mut steps = Vec::new();
+    let mut t = 0u64;
+    for _ in 0..rng.urange(2, 8) {
+        t += *rng.pick(&[10u64, 100, 300, 700, 1200]);
+        // hold: the server keeps the response back until the next renewal (like a publish request)
+        steps.push(json!({"op": "submit", "at_ms": t, "hold": rng.chance(0.5), "delay_ms": *rng.pick(&[0u64, 1, 20])}));
+    }
+    json!({
+        "side": "client", "policy": policy, "mode": mode, "lifetime_ms": lifetime,
+        // where the held responses go relative to the OpenSecureChannel response
+        "held_after_opn_ms": *rng.pick(&[0u64, 0, 0, 1, 5, 50]),
+        "held_before_opn": rng.chance(0.3),
+        "tseed": rng.next_u64() >> 12, "steps": steps
+    })
+}
+
+pub async fn run_client(plan: &Value, ctx: &mut Ctx) {
+    use crate::rawsrv::{self, RawServer, SrvRecv};
+    use opcua::client::transport::tcp::TransportConfiguration;
+    use opcua::client::transport::{AsyncSecureChannel, TransportPollResult};
+    use std::collections::BTreeMap;
+    use std::sync::{Arc, Mutex};
+    use tokio::time::Instant;
+    crate::hooks::follow_tokio();
+    let policy = wire::policy_by_name(plan["policy"].as_str().unwrap_or("Basic256Sha256"));
+    let mode = wire::mode_by_name(plan["mode"].as_str().unwrap_or("Sign"));
+    let lifetime = plan["lifetime_ms"].as_u64().unwrap_or(2000) as u32;
+    let acceptor = rawsrv::install_connector(1 << 22);
+    let store = Arc::new(opcua::sync::RwLock::new(opcua::crypto::CertificateStore::new(&client_pki(2048))));
+    let mut endpoint = super::c35_client::none_endpoint();
+    endpoint.security_policy_uri = UAString::from(policy.to_uri());
+    endpoint.security_mode = mode;
+    endpoint.server_certificate = wire::identity(2048, "b").cert.as_byte_string();
+    let channel = Arc::new(AsyncSecureChannel::new(
+        store,
+        endpoint.into(),
+        opcua::client::retry::SessionRetryPolicy::default(),
+        DecodingOptions::default(),
+        false,
+        Default::default(),
+        TransportConfiguration { max_pending_incoming: 50, max_inflight: 16, send_buffer_size: 65536, recv_buffer_size: 65536, max_message_size: 1 << 22, max_chunk_count: 64 },
+    ));
+    let acc2 = acceptor.clone();
+    let srv_task = tokio::spawn(async move {
+        let io = acc2.accept(Duration::from_secs(5)).await?;
+        let mut srv = RawServer::new(io, 79).with_identity(2048);
+        if srv.handshake(lifetime).await {
+            Some(srv)
+        } else {
+            None
+        }
+    });
+    let mut event_loop = match channel.connect_no_retry().await {
+        Ok(e) => e,
+        Err(e) => {
+            ctx.log("connect-failed", e.name());
+            return;
+        }
+    };
+    let mut srv = match srv_task.await {
+        Ok(Some(s)) => s,
+        _ => {
+            ctx.log("server-handshake-failed", "");
+            return;
+        }
+    };
+    let closed: Arc<Mutex<Option<(Instant, StatusCode)>>> = Arc::new(Mutex::new(None));
+    let c2 = closed.clone();
+    let el = tokio::spawn(async move {
+        loop {
+            if let TransportPollResult::Closed(s) = event_loop.poll().await {
+                *c2.lock().unwrap() = Some((Instant::now(), s));
+                break;
+            }
+        }
+    });
+    let t0 = Instant::now();
+    let steps = plan["steps"].as_array().cloned().unwrap_or_default();
+    let results: Arc<Mutex<BTreeMap<usize, Result<u32, StatusCode>>>> = Arc::new(Mutex::new(BTreeMap::new()));
+    let mut tasks = Vec::new();
+    let mut end = t0 + Duration::from_millis(500);
+    for (i, s) in steps.iter().enumerate() {
+        let at = t0 + Duration::from_millis(s["at_ms"].as_u64().unwrap_or(0));
+        end = end.max(at + Duration::from_millis(500));
+        let ch = channel.clone();
+        let res = results.clone();
+        tasks.push(tokio::spawn(async move {
+            tokio::time::sleep_until(at).await;
+            let req = ReadRequest {
+                request_header: wire::request_header(2000 + i as u32),
+                max_age: 0.0,
+                timestamps_to_return: TimestampsToReturn::Neither,
+                nodes_to_read: Some(vec![ReadValueId { node_id: NodeId::new(1, i as u32), attribute_id: AttributeId::Value as u32, index_range: UAString::null(), data_encoding: QualifiedName::null() }]),
+            };
+            let r = ch.send(req, Duration::from_secs(20)).await;
+            let v = match r {
+                Ok(SupportedMessage::ReadResponse(rr)) => match rr.results.as_ref().and_then(|v| v.first()).and_then(|d| d.value.clone()) {
+                    Some(Variant::UInt32(tag)) => Ok(tag),
+                    _ => Ok(u32::MAX),
+                },
+                Ok(_) => Ok(u32::MAX - 1),
+                Err(e) => Err(e),
+            };
+            res.lock().unwrap().insert(i, v);
+        }));
+    }
+    end += Duration::from_millis(lifetime as u64);
+    // ---- scripted server ----
+    let reply = |handle: u32, tag: u32| -> SupportedMessage {
+        ReadResponse { response_header: rawsrv::good_header(handle), results: Some(vec![DataValue::value_only(Variant::UInt32(tag))]), diagnostic_infos: None }.into()
+    };
+    let mut held: Vec<(u32, u32, u32)> = Vec::new(); // (request id, handle, tag)
+    let mut due: BTreeMap<(Instant, u64), (u32, u32, u32)> = BTreeMap::new();
+    let mut qn = 0u64;
+    let mut renewals = 0u32;
+    let mut new_token_responses = 0u32;
+    let held_after = Duration::from_millis(plan["held_after_opn_ms"].as_u64().unwrap_or(0));
+    let held_before = plan["held_before_opn"].as_bool().unwrap_or(false);
+    loop {
+        let now = Instant::now();
+        if now >= end || !srv.is_open() {
+            break;
+        }
+        let first_due = due.keys().next().cloned().filter(|k| k.0 <= now);
+        if let Some(k) = first_due {
+            let (rid, handle, tag) = due.remove(&k).unwrap();
+            srv.respond(rid, &reply(handle, tag)).await;
+            continue;
+        }
+        let mut wake = end;
+        if let Some(k) = due.keys().next() {
+            wake = wake.min(k.0);
+        }
+        let wait = if wake > now { wake - now } else { Duration::from_micros(0) };
+        match srv.recv(wait).await {
+            SrvRecv::Msg { request_id, msg, .. } => match msg {
+                SupportedMessage::ReadRequest(r) => {
+                    let idx = r.nodes_to_read.as_ref().and_then(|v| v.first()).map(|n| match &n.node_id.identifier {
+                        Identifier::Numeric(v) => *v as usize,
+                        _ => usize::MAX,
+                    });
+                    let Some(idx) = idx else { continue };
+                    let Some(s) = steps.get(idx) else { continue };
+                    let handle = r.request_header.request_handle;
+                    if s["hold"].as_bool().unwrap_or(false) {
+                        held.push((request_id, handle, idx as u32));
+                    } else {
+                        qn += 1;
+                        due.insert((Instant::now() + Duration::from_millis(s["delay_ms"].as_u64().unwrap_or(0)), qn), (request_id, handle, idx as u32));
+                    }
+                }
+                SupportedMessage::OpenSecureChannelRequest(req) => {
+                    renewals += 1;
+                    ctx.fault("client_renewal");
+                    if held_before {
+                        // answered under the old token, in order, before the renewal is answered
+                        for (rid, handle, tag) in held.drain(..) {
+                            srv.respond(rid, &reply(handle, tag)).await;
+                        }
+                    }
+                    let cert = srv.remote_cert_bytes();
+                    let resp = srv.open_response(&req, &cert, lifetime);
+                    srv.respond(request_id, &resp).await;
+                    // from here on the server secures with the new token
+                    for (rid, handle, tag) in held.drain(..) {
+                        new_token_responses += 1;
+                        ctx.fault("response_under_new_token_right_after_renewal");
+                        if held_after.is_zero() {
+                            srv.respond(rid, &reply(handle, tag)).await;
+                        } else {
+                            qn += 1;
+                            due.insert((Instant::now() + held_after, qn), (rid, handle, tag));
+                        }
+                    }
+                }
+                _ => {}
+            },
+            SrvRecv::Timeout => {}
+            _ => break,
+        }
+    }
+    // flush what is still held, then give the client a moment
+    for (rid, handle, tag) in held.drain(..) {
+        srv.respond(rid, &reply(handle, tag)).await;
+    }
+    for (_, (rid, handle, tag)) in std::mem::take(&mut due) {
+        srv.respond(rid, &reply(handle, tag)).await;
+    }
+    tokio::time::sleep(Duration::from_millis(200)).await;
+    if renewals > 0 && new_token_responses > 0 {
+        ctx.nontrivial = true;
+    }
+    let closed = *closed.lock().unwrap();
+    let res = results.lock().unwrap();
+    if let Some((at, status)) = closed {
+        ctx.violate(
+            "C14",
+            "old-token-rejected",
+            "side=client,pattern=response-under-new-token-before-keys-installed",
+            format!(
+                "the client transport closed with {} at {} ms: after {} renewal(s) the server answered {} held request(s) under the new token {} ms after its OpenSecureChannel response, and the client could not verify them",
+                status.name(),
+                (at - t0).as_millis(),
+                renewals,
+                new_token_responses,
+                held_after.as_millis()
+            ),
+        );
+    }
+    for (i, _) in steps.iter().enumerate() {
+        match res.get(&i) {
+            Some(Ok(tag)) if *tag == i as u32 => ctx.log(&format!("r{}>ok", i), ""),
+            Some(Ok(tag)) => ctx.violate("C14", "wrong-response", "side=client", format!("request {} completed with the response for {}", i, tag)),
+            Some(Err(e)) => {
+                ctx.log(&format!("r{}>{}", i, e.name()), "");
+                if closed.is_none() {
+                    ctx.violate("C14", "request-failed-on-healthy-channel", e.name(), format!("request {} failed with {} although the server answered every request correctly secured", i, e.name()));
+                }
+            }
+            None => {
+                ctx.log(&format!("r{}>pending", i), "");
+                if closed.is_none() {
+                    ctx.violate("C14", "request-failed-on-healthy-channel", "never-completed", format!("request {} never completed although the server answered it", i));
+                }
+            }
+        }
+    }
+    ctx.add("client_renewals", renewals as u64);
+    drop(res);
+    el.abort();
+    for t in tasks {
+        t.abort();
+    }
+    ctx.advance((Instant::now() - t0).as_micros() as u64);
 }
